@@ -225,7 +225,18 @@ class Check:
         self.seed = int(seed)
         self.level = level
         self.rng = random.Random('%s:%d' % (pid, self.seed))
-        self.gen = os.path.join(COQ, 'gen', pid)
+        # per-run scratch directory (two runs of the same property may overlap, e.g. a mutation trial and a
+        # regular run); stale ones are removed here, the own one at the end of a clean run
+        base = os.path.join(COQ, 'gen', pid)
+        os.makedirs(base, exist_ok=True)
+        for d in os.listdir(base):
+            dp = os.path.join(base, d)
+            try:
+                if time.time() - os.path.getmtime(dp) > 3 * 3600:
+                    shutil.rmtree(dp, ignore_errors=True) if os.path.isdir(dp) else os.remove(dp)
+            except OSError:
+                pass
+        self.gen = os.path.join(base, 'run-%d' % os.getpid())
         self.replays = os.path.join(VERIF, 'replays', pid)
         self.t0 = time.time()
         self.obligations = []      # dicts: name, kind, ok, detail
@@ -242,8 +253,14 @@ class Check:
         self.notes = []
         shutil.rmtree(self.gen, ignore_errors=True)
         os.makedirs(self.gen, exist_ok=True)
-        shutil.rmtree(self.replays, ignore_errors=True)
         os.makedirs(self.replays, exist_ok=True)
+        for f in os.listdir(self.replays):       # replays of earlier runs (keep those of a run that may still be active)
+            fp = os.path.join(self.replays, f)
+            try:
+                if time.time() - os.path.getmtime(fp) > 1800:
+                    os.remove(fp)
+            except OSError:
+                pass
         with open(os.path.join(VERIF, 'known_findings.json')) as f:
             self.known = [k for k in json.load(f)['findings'] if k['property'] == pid]
 
@@ -343,7 +360,10 @@ class Check:
                     self.known_hits.append(hit)
                 return False
         n = len(self.violations)
-        path = os.path.join(self.replays, 'violation_%03d.json' % n)
+        if n >= 40:          # enough to make the point; further ones are only counted
+            self.cov['violations_beyond_the_first_40'] = self.cov.get('violations_beyond_the_first_40', 0) + 1
+            return True
+        path = os.path.join(self.replays, 'violation_%d_%03d.json' % (os.getpid(), n))
         with open(path, 'w') as f:
             json.dump({'property': self.pid, 'what': what, 'match': match, 'no_failing_input_found': no_input,
                        'seed': self.seed, 'tier': self.tier, 'replay': replay}, f, indent=1, default=str)
@@ -388,6 +408,8 @@ class Check:
         os.makedirs(os.path.join(VERIF, 'evidence'), exist_ok=True)
         with open(os.path.join(VERIF, 'evidence', self.pid + '.json'), 'w') as f:
             json.dump(ev, f, indent=1, default=str)
+        if not self.violations and not os.environ.get('VERIF_KEEP_GEN'):
+            shutil.rmtree(self.gen, ignore_errors=True)
         for h in self.known_hits:
             print('KNOWN-FINDING: property=%s %s' % (self.pid, h))
         for v in self.violations:
